@@ -281,6 +281,14 @@ func (b *backendTransitionSessionHandler) handleJoinGame(pc *proto.PacketContext
 		return
 	}
 	smc.SetActiveSessionHandler(state.Play, backendPlay)
+	if netmc.Closed(smc) {
+		// Activating the play handler writes to the backend. If the backend has closed the
+		// connection by now (kick right after JoinGame), that write failed and the play
+		// handler's Disconnected() has already run the failover from inside the call above;
+		// recording this dead connection as the connected server now would overwrite it.
+		b.requestCtx.result(nil, errors.New("connection to the server was lost while joining"))
+		return
+	}
 
 	// Now set the connected server.
 	b.serverConn.player.setConnectedServer(b.serverConn)
